@@ -50,8 +50,9 @@ _FIELDS = ("_microseconds", "_seconds", "_days", "_remaining_days", "_weeks")
 def mk_duration(F, cls, us, years, months, signature=None, hint="dur"):
     """fresh Duration object with native value `us`; returns (object, relational constraints)"""
     f = {k: F.int(f"{hint}{k}") for k in _FIELDS}
-    f["_total"] = F.real(f"{hint}_total")
     f.update(us=us, _years=years, _months=months)
+    # _total is a function of the native value (kept as a term so that products with it normalise)
+    f["_total"] = sym.truediv(sym.sub(us, ym_us(years, months)), M)
     if signature is not None:
         f["_signature"] = signature
     o = Obj(cls, **f)
@@ -231,3 +232,340 @@ class in_seconds:
 
     def ensures(result, self):
         return [("truncates_toward_zero", trunc_rel(self.us, M, result))]
+
+
+# ========================================================================================== C10
+def rhe_rel(a, b, q):
+    """q == round-half-even(a / b) for integers a, b (b != 0), stated without division:
+    |2*(a - q*b)| <= |b| and on a tie q is even"""
+    r2 = sym.mul(2, sym.sub(a, sym.mul(q, b)))
+    ab = absv(b)
+    return And(le(absv(r2), ab), Implies(eq(absv(r2), ab), eq(sym.fmod(q, 2), 0)))
+
+
+@contract("pendulum.duration._divide_and_round", props=["C10"])
+class divide_and_round:
+    class ints:
+        def applies(a, b):
+            return sym.is_intlike(a) and sym.is_intlike(b)
+
+        def args(F):
+            return dict(a=F.int("a"), b=F.int("b"))
+
+        def requires(a, b):
+            return [("nonzero_divisor", ne(b, 0))]
+
+        def result(F, a, b):
+            return F.int("dar")
+
+        def ensures(result, a, b):
+            return [("round_half_even", rhe_rel(a, b, result))]
+
+    class int_real:
+        """months / float in __truediv__: float divmod (A-FLOAT: exact reals)"""
+
+        def applies(a, b):
+            return sym.is_reallike(a) or sym.is_reallike(b)
+
+        def args(F):
+            return dict(a=F.int("a"), b=F.real("b"))
+
+        def requires(a, b):
+            return [("nonzero_divisor", ne(b, 0))]
+
+        def result(F, a, b):
+            return F.int("dar")
+
+        def ensures(result, a, b):
+            x = sym.truediv(a, b)
+            d = sym.sub(x, sym.toreal(result))
+            half = sym.truediv(1, 2)
+            return [("round_half_even", And(le(absv(d), half), Implies(eq(absv(d), half), eq(sym.fmod(result, 2), 0))))]
+
+    cases = {"ints": ints, "int_real": int_real}
+
+
+@contract("pendulum.duration.Duration._to_microseconds", props=["C10"])
+class to_microseconds:
+    args = _self
+
+    def value(self):
+        return R_of(self)
+
+
+def _pair(other_cls, ym=True):
+    def args(F):
+        o, inv = fresh_duration(F, Duration, "self", ym=ym)
+        if other_cls is Duration:
+            p, inv2 = fresh_duration(F, Duration, "other", ym=ym)
+        else:
+            p, inv2 = stdlib.fresh_td(F, _dt.timedelta, "other")
+        return dict(self=o, other=p), [inv, inv2]
+
+    return args
+
+
+def _is_exact(other, cls):
+    return isinstance(other, Obj) and other.cls is cls
+
+
+def _sig_seconds(x):
+    return dict(years=0, months=0, weeks=0, days=0, hours=0, minutes=0, seconds=x, microseconds=0)
+
+
+def _addsub(name, op):
+    class base:
+        raises = [(OverflowError, "native_range", lambda self, other: Not(stdlib.td_in_range(op(self.us, other.us))))]
+
+        def result(F, self, other):
+            o, _ = mk_duration(F, self.cls, op(self.us, other.us), 0, 0, hint=name)
+            return o
+
+        def ensures(result, self, other):
+            # the length of the native timedelta operation, in a Duration
+            return [("class", result.cls is self.cls), ("native_length", eq(result.us, op(self.us, other.us))),
+                    ("no_years_months", And(eq(result._years, 0), eq(result._months, 0)))] + \
+                   [(f"decomposition.{l}", c) for l, c in dur_rel(result)]
+
+    class dur(base):
+        applies = staticmethod(lambda self, other: _is_exact(other, Duration))
+        args = _pair(Duration)
+
+    class td(base):
+        applies = staticmethod(lambda self, other: _is_exact(other, _dt.timedelta))
+        args = _pair(_dt.timedelta)
+
+    class unsupported:
+        applies = staticmethod(lambda self, other: not isinstance(other, Obj) or not issubclass(other.cls, _dt.timedelta))
+
+        def args(F):
+            o, inv = fresh_duration(F, Duration, "self")
+            return dict(self=o, other=F.int("other")), [inv]
+
+        def value(self, other):
+            return NotImplemented
+
+    return {"duration": dur, "timedelta": td, "unsupported": unsupported}
+
+
+@contract("pendulum.duration.Duration.__add__", props=["C10"])
+class d_add:
+    cases = _addsub("add", sym.add)
+
+
+@contract("pendulum.duration.Duration.__sub__", props=["C10"])
+class d_sub:
+    cases = _addsub("sub", sym.sub)
+
+
+@contract("pendulum.duration.Duration.__neg__", props=["C10", "C04"])
+class d_neg:
+    args = _self
+    # like the native class: the range of timedelta is not symmetric (-timedelta.max overflows)
+    raises = [(OverflowError, "native_range", lambda self: Not(stdlib.td_in_range(sym.neg(self.us))))]
+
+    def result(F, self):
+        o, _ = mk_duration(F, self.cls, sym.neg(self.us), sym.neg(self._years), sym.neg(self._months), hint="neg")
+        return o
+
+    def ensures(result, self):
+        return [("class", result.cls is self.cls), ("native_length", eq(result.us, sym.neg(self.us))),
+                ("years_months_negated", And(eq(result._years, sym.neg(self._years)), eq(result._months, sym.neg(self._months))))] + \
+               [(f"decomposition.{l}", c) for l, c in dur_rel(result)]
+
+
+def _self_and(kind, ym=True):
+    def args(F):
+        o, inv = fresh_duration(F, Duration, "self", ym=ym)
+        other = F.int("other") if kind == "int" else F.real("other")
+        return dict(self=o, other=other), [inv]
+
+    return args
+
+
+@contract("pendulum.duration.Duration.__mul__", props=["C10"])
+class d_mul:
+    class by_int:
+        applies = staticmethod(lambda self, other: sym.is_intlike(other))
+        args = _self_and("int")
+
+        def requires(self, other):
+            return [("representable", stdlib.td_in_range(sym.mul(self.us, other)))]
+
+        def result(F, self, other):
+            o, _ = mk_duration(F, self.cls, sym.mul(self.us, other), sym.mul(self._years, other), sym.mul(self._months, other), hint="mul")
+            return o
+
+        def ensures(result, self, other):
+            return [("class", result.cls is self.cls), ("native_length", eq(result.us, sym.mul(self.us, other))),
+                    ("years_months_scaled", And(eq(result._years, sym.mul(self._years, other)), eq(result._months, sym.mul(self._months, other))))]
+
+    class by_float:
+        applies = staticmethod(lambda self, other: sym.is_reallike(other))
+        args = _self_and("float", ym=False)
+
+        def requires(self, other):
+            n, d = sym.ratio(other)
+            return [("no_years_months", And(eq(self._years, 0), eq(self._months, 0))),
+                    # |us * f| stays below the native maximum (so that the rounded product is representable)
+                    ("representable", le(sym.mul(absv(sym.mul(self.us, n)), 1), sym.mul(d, stdlib.MAX_TD_DAYS * DUS)))]
+
+        def result(F, self, other):
+            o, _ = mk_duration(F, self.cls, F.int("mulf_us"), 0, 0, hint="mulf")
+            return o
+
+        def ensures(result, self, other):
+            # native: timedelta * float == round-half-even(us * a / b), (a, b) = f.as_integer_ratio()
+            n, d = sym.ratio(other)
+            return [("class", result.cls is self.cls), ("native_length", rhe_rel(sym.mul(self.us, n), d, result.us))]
+
+    cases = {"by_int": by_int, "by_float": by_float}
+
+
+def _no_ym(*ds):
+    return And(*[And(eq(d._years, 0), eq(d._months, 0)) for d in ds if isinstance(d, Obj) and "_years" in d.f])
+
+
+def _divcases(kind):
+    """cases of //, /, %, divmod by a duration (Duration or plain timedelta): the native operation on the
+    microsecond values (zero divisors excluded; Durations without years/months, as in the statement)"""
+
+    def native(self, other):
+        a, b = self.us, other.us
+        if kind == "floordiv":
+            return sym.fdiv(a, b)
+        if kind == "truediv":
+            return sym.truediv(a, b)
+        return None
+
+    class by_duration_base:
+        def requires(self, other):
+            return [("no_years_months", _no_ym(self, other)), ("nonzero_divisor", ne(other.us, 0))]
+
+        if kind in ("floordiv", "truediv"):
+            def value(self, other):
+                return native(self, other)
+        elif kind == "mod":
+            def result(F, self, other):
+                o, _ = mk_duration(F, self.cls, sym.fmod(self.us, other.us), 0, 0, hint="mod")
+                return o
+
+            def ensures(result, self, other):
+                return [("class", result.cls is self.cls), ("native_length", eq(result.us, sym.fmod(self.us, other.us)))]
+        else:
+            def result(F, self, other):
+                o, _ = mk_duration(F, self.cls, sym.fmod(self.us, other.us), 0, 0, hint="divmod")
+                return (sym.fdiv(self.us, other.us), o)
+
+            def ensures(result, self, other):
+                q, r = result
+                return [("quotient", eq(q, sym.fdiv(self.us, other.us))), ("class", r.cls is self.cls),
+                        ("native_length", eq(r.us, sym.fmod(self.us, other.us)))]
+
+    class dur(by_duration_base):
+        applies = staticmethod(lambda self, other: _is_exact(other, Duration))
+        args = _pair(Duration, ym=False)
+
+    class td(by_duration_base):
+        applies = staticmethod(lambda self, other: _is_exact(other, _dt.timedelta))
+        args = _pair(_dt.timedelta, ym=False)
+
+    return {"duration": dur, "timedelta": td}
+
+
+@contract("pendulum.duration.Duration.__floordiv__", props=["C10"])
+class d_floordiv:
+    class by_int:
+        applies = staticmethod(lambda self, other: sym.is_intlike(other))
+        args = _self_and("int", ym=False)
+
+        def requires(self, other):
+            return [("no_years_months", _no_ym(self)), ("nonzero_divisor", ne(other, 0))]
+
+        # like the native class (timedelta.min // -1 overflows)
+        raises = [(OverflowError, "native_range", lambda self, other: Not(stdlib.td_in_range(sym.fdiv(self.us, other))))]
+
+        def result(F, self, other):
+            o, _ = mk_duration(F, self.cls, sym.fdiv(self.us, other), 0, 0, hint="fdiv")
+            return o
+
+        def ensures(result, self, other):
+            return [("class", result.cls is self.cls), ("native_length", eq(result.us, sym.fdiv(self.us, other)))]
+
+    cases = dict(_divcases("floordiv"), by_int=by_int)
+
+
+@contract("pendulum.duration.Duration.__truediv__", props=["C10"])
+class d_truediv:
+    class by_int:
+        applies = staticmethod(lambda self, other: sym.is_intlike(other))
+        args = _self_and("int", ym=False)
+
+        def requires(self, other):
+            return [("no_years_months", _no_ym(self)), ("nonzero_divisor", ne(other, 0)),
+                    # the range of timedelta is not symmetric: dividing by a negative number must not produce
+                    # the negation of a value beyond -timedelta.min
+                    ("representable", Or(gt(other, 0), le(self.us, stdlib.MAX_TD_DAYS * DUS)))]
+
+        def result(F, self, other):
+            o, _ = mk_duration(F, self.cls, F.int("tdiv_us"), 0, 0, hint="tdiv")
+            return o
+
+        def ensures(result, self, other):
+            # native: timedelta / int == round-half-even(us / n)
+            return [("class", result.cls is self.cls), ("native_length", rhe_rel(self.us, other, result.us))]
+
+    class by_float:
+        applies = staticmethod(lambda self, other: sym.is_reallike(other))
+        args = _self_and("float", ym=False)
+
+        def requires(self, other):
+            n, d = sym.ratio(other)
+            return [("no_years_months", _no_ym(self)), ("nonzero_divisor", ne(other, 0)),
+                    ("representable", le(absv(sym.mul(self.us, d)), sym.mul(absv(n), stdlib.MAX_TD_DAYS * DUS)))]
+
+        def result(F, self, other):
+            o, _ = mk_duration(F, self.cls, F.int("tdivf_us"), 0, 0, hint="tdivf")
+            return o
+
+        def ensures(result, self, other):
+            # native: timedelta / float == round-half-even(us * b / a), (a, b) = f.as_integer_ratio()
+            n, d = sym.ratio(other)
+            return [("class", result.cls is self.cls), ("native_length", rhe_rel(sym.mul(d, self.us), n, result.us))]
+
+    cases = dict(_divcases("truediv"), by_int=by_int, by_float=by_float)
+
+
+@contract("pendulum.duration.Duration.__mod__", props=["C10"])
+class d_mod:
+    cases = _divcases("mod")
+
+
+@contract("pendulum.duration.Duration.__divmod__", props=["C10"])
+class d_divmod:
+    cases = _divcases("divmod")
+
+
+@contract("pendulum.duration._timedelta_to_microseconds", props=["C10"])
+class td_to_us:
+    class dur:
+        applies = staticmethod(lambda delta: isinstance(delta, Obj) and issubclass(delta.cls, Duration))
+
+        def args(F):
+            o, inv = fresh_duration(F, Duration, "delta")
+            return dict(delta=o), [inv]
+
+        def value(delta):
+            return R_of(delta)
+
+    class td:
+        applies = staticmethod(lambda delta: isinstance(delta, Obj) and issubclass(delta.cls, _dt.timedelta) and not issubclass(delta.cls, Duration))
+
+        def args(F):
+            o, inv = stdlib.fresh_td(F, _dt.timedelta, "delta")
+            return dict(delta=o), [inv]
+
+        def value(delta):
+            return delta.us
+
+    cases = {"duration": dur, "timedelta": td}
